@@ -15,6 +15,7 @@ import (
 	"runtime"
 	"sort"
 	"strings"
+	"sync"
 )
 
 // ---- panic capture (shared by the three C19 drivers) ----------------------------------------------------
@@ -266,26 +267,19 @@ func c19BoolKey(name string, base string) C19Key {
 	return c19ScalarKey(name, base, c19V("true", `true`), c19Z(`false`), c19Bad("type-string", `"yes"`))
 }
 
-func c19NetListKey(name string, good []string, base string, rng *rand.Rand) C19Key {
+func c19NetListKey(name string, good []string, base string) C19Key {
 	k := C19Key{Name: name}
 	k.States = append(k.States, C19State{Label: "unset", Kind: "unset"}, c19Z(`[]`))
 	// a few fixed valid lists and (when rng != nil) one drawn list
 	k.States = append(k.States, c19V("one", c19List(good[0])), c19V("three", c19List(good[1], good[2], good[len(good)-1])), c19V("all", c19List(good...)))
-	if rng != nil {
-		n := 1 + rng.Intn(4)
-		var items []string
-		for i := 0; i < n; i++ {
-			items = append(items, good[rng.Intn(len(good))])
-		}
-		k.States = append(k.States, c19V("drawn", c19List(items...)))
-	}
 	for _, be := range C19BadEntries {
 		// the offending entry sits between well-formed ones
 		k.States = append(k.States, c19Ent(be.Class+":"+strings.TrimSpace(be.S), c19List(good[1], be.S, good[2])))
 	}
 	k.States = append(k.States, c19Ent("garbage-only", c19List("not-a-subnet")), c19Ent("ws-only", c19List(good[1]+" ")))
-	k.States = append(k.States, c19PT("int", `5`), c19PT("string", C19Q(good[1])), c19PT("int-array", `[1, 2]`))
-	return c19SetBase(k, base)
+	k.States = append(k.States, c19PT("int", `5`), c19PT("int-array", `[1, 2]`))
+	k = c19SetBase(k, base)
+	return k
 }
 
 func c19DomainKey(base string) C19Key {
@@ -299,13 +293,52 @@ func c19DomainKey(base string) C19Key {
 	for _, b := range C19BadDomains {
 		k.States = append(k.States, C19State{Label: "regex:" + b, Lit: c19List(all[1], b), Kind: "regex"})
 	}
-	k.States = append(k.States, c19PT("string", `"localhost"`), c19PT("int-array", `[1, 2]`))
+	k.States = append(k.States, c19PT("int", `5`), c19PT("int-array", `[1, 2]`))
 	return c19SetBase(k, base)
 }
 
 // C19Keys returns every optional key with its states.  garbageDB is the path of an existing file
 // that is not a MaxMind database.  rng may be nil (then only the fixed states are produced).
 func C19Keys(garbageDB string, rng *rand.Rand) []C19Key {
+	c19KeysMu.Lock()
+	fixed, ok := c19KeysCache[garbageDB]
+	if !ok {
+		fixed = c19KeysBuild(garbageDB)
+		c19KeysCache[garbageDB] = fixed
+	}
+	c19KeysMu.Unlock()
+	keys := append([]C19Key(nil), fixed...)
+	if rng == nil {
+		return keys
+	}
+	for i, k := range keys {
+		var good []string
+		switch k.Name {
+		case "covert_blocklist_subnets", "covert_allowlist_subnets":
+			good = C19GoodCovertNets
+		case "phantom_blocklist":
+			good = C19GoodPhantomNets
+		default:
+			continue
+		}
+		n := 1 + rng.Intn(4)
+		var items []string
+		for j := 0; j < n; j++ {
+			items = append(items, good[rng.Intn(len(good))])
+		}
+		// one drawn list, appended last so that the fixed states keep their positions
+		st := append([]C19State(nil), k.States...)
+		keys[i].States = append(st, c19V("drawn", c19List(items...)))
+	}
+	return keys
+}
+
+var (
+	c19KeysMu    sync.Mutex
+	c19KeysCache = map[string][]C19Key{}
+)
+
+func c19KeysBuild(garbageDB string) []C19Key {
 	keys := []C19Key{
 		c19ScalarKey("log_level", "valid:error", c19V("error", `"error"`), c19V("info", `"info"`), c19V("debug", `"debug"`), c19V("trace", `"trace"`), c19V("warn", `"warn"`),
 			c19V("INFO", `"INFO"`), c19Z(`""`), c19Bad("word", `"bogus"`), c19Bad("type-int", `5`)),
@@ -322,11 +355,11 @@ func C19Keys(garbageDB string, rng *rand.Rand) []C19Key {
 		c19ScalarKey("ingest_worker_count", "valid:100", c19V("1", `1`), c19V("9", `9`), c19V("10", `10`), c19V("100", `100`), c19V("2000", `2000`), c19V("-3", `-3`), c19V("-100", `-100`), c19Z(`0`), c19Bad("type-string", `"many"`)),
 		c19BoolKey("enable_share_over_api", "zero"),
 		c19ScalarKey("preshare_endpoint", "zero", c19Z(`""`), c19V("url", `"http://127.0.0.1:1/register"`)),
-		c19NetListKey("covert_blocklist_subnets", C19GoodCovertNets, "valid:all", rng),
+		c19NetListKey("covert_blocklist_subnets", C19GoodCovertNets, "valid:all"),
 		c19BoolKey("covert_blocklist_public_addrs", "zero"),
-		c19NetListKey("covert_allowlist_subnets", C19GoodCovertNets, "zero", rng),
+		c19NetListKey("covert_allowlist_subnets", C19GoodCovertNets, "zero"),
 		c19DomainKey("valid:localhost"),
-		c19NetListKey("phantom_blocklist", C19GoodPhantomNets, "valid:one", rng),
+		c19NetListKey("phantom_blocklist", C19GoodPhantomNets, "valid:one"),
 		c19ScalarKey("detector_filter_list", "valid:shipped", c19V("shipped", `["127.0.0.1", "::1"]`), c19Z(`[]`)),
 		c19ScalarKey("geoip_cc_db_path", "zero", c19Z(`""`), c19Bad("missing", `"/nonexistent/GeoLite2-Country.mmdb"`), c19Bad("not-a-db", C19Q(garbageDB))),
 		c19ScalarKey("geoip_asn_db_path", "zero", c19Z(`""`), c19Bad("missing", `"/nonexistent/GeoLite2-ASN.mmdb"`), c19Bad("not-a-db", C19Q(garbageDB))),
@@ -648,6 +681,16 @@ func c19Subnets(gens map[int][][2]interface{}) string {
 // C19SubnetFiles returns the pool of phantom-subnet files.  All loadable files use positive weights
 // and ordinary subnets (the corner cases of phantom selection itself belong to C14).
 func C19SubnetFiles() []C19SubnetFile {
+	c19SubOnce.Do(func() { c19SubFiles = c19SubnetFilesBuild() })
+	return c19SubFiles
+}
+
+var (
+	c19SubOnce  sync.Once
+	c19SubFiles []C19SubnetFile
+)
+
+func c19SubnetFilesBuild() []C19SubnetFile {
 	a := []string{"192.122.190.0/24", "2001:48a8:687f:1::/64"}
 	b := []string{"192.122.190.0/28", "2001:48a8:687f:1::/96"}
 	c := []string{"141.219.0.0/16", "35.8.0.0/16"}
